@@ -92,7 +92,8 @@ def index_array(a, idx):
     """NumPy basic indexing on a shape: ints, slices, Ellipsis, None."""
     if not isinstance(idx, tuple):
         idx = (idx,)
-    n_real = sum(1 for i in idx if i is not None and i is not Ellipsis)
+    n_real = sum((len(i.shape) if isinstance(i, AArr) else 1)
+                 for i in idx if i is not None and i is not Ellipsis)
     if n_real > len(a.shape):
         raise ShapeError("too many indices")
     if Ellipsis in idx:
@@ -107,9 +108,25 @@ def index_array(a, idx):
         if i is None:
             out.append(1)
             continue
+        if isinstance(i, AArr):
+            # boolean mask covering the next len(i.shape) axes
+            k = len(i.shape)
+            if pos + k > len(a.shape):
+                raise ShapeError("boolean mask has too many axes")
+            for md, ad in zip(i.shape, a.shape[pos:pos + k]):
+                if md != ad:
+                    raise ShapeError(
+                        f"boolean mask axis {md} does not match array axis "
+                        f"{ad}")
+            pos += k
+            out.append("#selected")
+            continue
         d = a.shape[pos]
         pos += 1
         if isinstance(i, int):
+            if isinstance(d, int) and not -d <= i < d:
+                raise ShapeError(f"index {i} out of bounds for an axis of "
+                                 f"size {d}")
             continue
         if isinstance(i, slice):
             if i.start is None and i.stop is None and i.step is None:
@@ -139,8 +156,6 @@ def index_array(a, idx):
             else:
                 out.append(f"{d}[{i.start}:{i.stop}]")
             continue
-        if isinstance(i, AArr):
-            raise Unsupported("advanced indexing")
         raise Unsupported(f"index {i!r}")
     return AArr(tuple(out))
 
@@ -159,6 +174,8 @@ def bdim(a, b):
     """NumPy broadcasting of two dims."""
     if a == b:
         return a
+    if a == "#selected" or b == "#selected":
+        return "#selected"
     if a == 1:
         return b
     if b == 1:
@@ -646,6 +663,10 @@ class Interp:
             return np_squeeze(a, axis)
         if name in ("astype", "copy", "conjugate"):
             return a
+        if name == "sort":
+            axis = kw.get("axis", args[0] if args else -1)
+            _norm_axes(axis, len(a.shape))
+            return None
         if name == "swapaxes":
             ax = _norm_axes(tuple(args[:2]), len(a.shape))
             sh = list(a.shape)
@@ -808,6 +829,39 @@ class Interp:
             return AArr(tuple(sh))
         if name == "np.roll":
             return args[0]
+        if name in ("np.argsort", "np.sort", "np.flip", "np.copy",
+                    "np.cumsum", "utils.invert", "np.linalg.inv"):
+            if "axis" in kw and isinstance(args[0], AArr):
+                _norm_axes(kw["axis"], len(args[0].shape))
+            return args[0]
+        if name == "np.linalg.norm" and isinstance(args[0], AArr):
+            axis = kw.get("axis", args[1] if len(args) > 1 else None)
+            if axis is None:
+                return AScal()
+            ax = _norm_axes(axis, len(args[0].shape))
+            return AArr(tuple(d for i, d in enumerate(args[0].shape)
+                              if i not in ax))
+        if name == "np.take_along_axis":
+            arr, ind = args[0], args[1]
+            axis = kw.get("axis", args[2] if len(args) > 2 else None)
+            if not isinstance(arr, AArr) or not isinstance(ind, AArr):
+                raise Unsupported("take_along_axis of non-arrays")
+            if len(arr.shape) != len(ind.shape):
+                raise ShapeError(
+                    f"take_along_axis: array rank {len(arr.shape)} and index "
+                    f"rank {len(ind.shape)} differ")
+            ax = _norm_axes(axis, len(arr.shape))[0]
+            out = []
+            for i, (p, q) in enumerate(zip(arr.shape, ind.shape)):
+                out.append(q if i == ax else bdim(p, q))
+            return AArr(tuple(out))
+        if name == "np.argmin" or name == "np.argmax":
+            axis = kw.get("axis", args[1] if len(args) > 1 else None)
+            if axis is None:
+                return AScal()
+            ax = _norm_axes(axis, len(args[0].shape))
+            return AArr(tuple(d for i, d in enumerate(args[0].shape)
+                              if i not in ax))
         if name == "np.expand_dims":
             axis = kw.get("axis", args[1] if len(args) > 1 else None)
             return np_expand_dims(args[0], axis)
